@@ -230,7 +230,9 @@ def _signextend(expr, val, arg_typ):
     return unsigned_to_signed(val, n_bits)
 
 
-def _literal_int(expr, arg_typ, out_typ):
+def _literal_int_value(expr, arg_typ, out_typ):
+    # the value of `convert(<literal>, <integer type>)`;
+    # raises InvalidLiteral if it is not representable.
     # TODO: possible to reuse machinery from expr.py?
     if isinstance(expr, vy_ast.Hex):
         val = int(expr.value, 16)
@@ -249,12 +251,16 @@ def _literal_int(expr, arg_typ, out_typ):
         raise InvalidLiteral("Number out of range", expr)
 
     # cast to int AFTER bounds check (ensures decimal is in bounds before truncation)
-    val = int(val)
-
-    return IRnode.from_list(val, typ=out_typ)
+    return int(val)
 
 
-def _literal_decimal(expr, arg_typ, out_typ):
+def _literal_int(expr, arg_typ, out_typ):
+    return IRnode.from_list(_literal_int_value(expr, arg_typ, out_typ), typ=out_typ)
+
+
+def _literal_decimal_value(expr, arg_typ, out_typ):
+    # the (scaled) value of `convert(<literal>, decimal)`;
+    # raises InvalidLiteral if it is not representable.
     if isinstance(expr, vy_ast.Hex):
         val = decimal.Decimal(int(expr.value, 16))
     else:
@@ -275,7 +281,50 @@ def _literal_decimal(expr, arg_typ, out_typ):
     if not lo <= val <= hi:
         raise InvalidLiteral("Number out of range", expr)
 
-    return IRnode.from_list(val, typ=out_typ)
+    return val
+
+
+def _literal_decimal(expr, arg_typ, out_typ):
+    return IRnode.from_list(_literal_decimal_value(expr, arg_typ, out_typ), typ=out_typ)
+
+
+def validate_literal_convert(expr, arg_typ, out_typ):
+    """
+    Called by the type checker on `convert(<expr>, <out_typ>)`: if the
+    (folded) argument is a literal which `to_int` / `to_decimal` convert at
+    compile time, apply their range check now, so that a program accepted
+    by semantic analysis is not rejected by code generation.
+    (conversions which codegen rejects for other reasons are left to it)
+    """
+    if isinstance(arg_typ, _BytestringT) and arg_typ.maxlen > 32:
+        return
+
+    if is_integer_type(out_typ):
+        bytes_literals = (vy_ast.Hex, vy_ast.Bytes, vy_ast.HexBytes)
+        if not isinstance(expr, (vy_ast.Int, vy_ast.Decimal, vy_ast.NameConstant) + bytes_literals):
+            return
+        if not isinstance(arg_typ, (IntegerT, DecimalT, BytesM_T, AddressT, BoolT, BytesT)):
+            return
+        if arg_typ == AddressT() and out_typ.is_signed:
+            return
+        _literal_int_value(expr, arg_typ, out_typ)
+
+    elif out_typ == AddressT():
+        # to_address converts to uint160
+        if not isinstance(expr, (vy_ast.Int, vy_ast.Hex, vy_ast.Bytes, vy_ast.HexBytes)):
+            return
+        if not isinstance(arg_typ, (BytesM_T, IntegerT, BytesT)):
+            return
+        if is_integer_type(arg_typ) and arg_typ.is_signed:
+            return
+        _literal_int_value(expr, arg_typ, UINT160_T)
+
+    elif is_decimal_type(out_typ):
+        if not isinstance(expr, (vy_ast.Int, vy_ast.Hex, vy_ast.NameConstant)):
+            return
+        if not isinstance(arg_typ, (IntegerT, BoolT, BytesM_T)):
+            return
+        _literal_decimal_value(expr, arg_typ, out_typ)
 
 
 # any base type or bytes/string
